@@ -125,7 +125,8 @@ pub fn install_panic_hook() {
             .location()
             .map(|l| {
                 let f = l.file();
-                let f = f.strip_prefix("/repo/").unwrap_or(f);
+                let root = format!("{}/", repo_root().display());
+                let f = f.strip_prefix(root.as_str()).or_else(|| f.strip_prefix("/repo/")).unwrap_or(f);
                 format!("{}:{}", f, l.line())
             })
             .unwrap_or_else(|| "?".into());
@@ -173,9 +174,17 @@ pub struct KnownFindings {
 }
 impl KnownFindings {
     pub fn load() -> KnownFindings {
-        let p = verif_root().join("known_findings.json");
         let mut entries = vec![];
-        if let Ok(txt) = std::fs::read_to_string(&p) {
+        // the committed file plus optional fragments known_findings.d/*.json (same format; merged into the main file at integration time)
+        let mut files = vec![verif_root().join("known_findings.json")];
+        if let Ok(rd) = std::fs::read_dir(verif_root().join("known_findings.d")) {
+            let mut extra: Vec<PathBuf> = rd.flatten().map(|e| e.path()).filter(|p| p.extension().map(|x| x == "json").unwrap_or(false)).collect();
+            extra.sort();
+            files.extend(extra);
+        }
+        for p in files {
+            let Ok(txt) = std::fs::read_to_string(&p) else { continue };
+            {
             let v: Value = serde_json::from_str(&txt).expect("known_findings.json must be valid JSON");
             for e in v["findings"].as_array().cloned().unwrap_or_default() {
                 entries.push(KnownEntry {
@@ -185,6 +194,7 @@ impl KnownFindings {
                     signature: e["signature"].as_str().unwrap_or("").into(),
                     what: e["what"].as_str().unwrap_or("").into(),
                 });
+            }
             }
         }
         KnownFindings { entries }
